@@ -67,3 +67,11 @@ func requireAll(c *fw.Ctx, p scen.Proto, s *scen.Session, what string) bool {
 func desc(p scen.Proto, n, t int, extra string) string {
 	return fmt.Sprintf("%s n=%d t=%d %s", p, n, t, extra)
 }
+
+// capSigners keeps CMP signing sessions at <= 3 signers (cost) whenever the threshold allows it.
+func capSigners(p scen.Proto, signers []party.ID, t int) []party.ID {
+	if p == scen.CMP && len(signers) > 3 && t+1 <= 3 {
+		return signers[:3]
+	}
+	return signers
+}
